@@ -19,6 +19,7 @@
 #include <stdexcept>
 #include <string>
 #include <type_traits>
+#include <sys/time.h>
 #include <unistd.h>
 #include <vector>
 
@@ -82,6 +83,14 @@ namespace vf {
 #endif
     }
 
+    inline void watchdog(unsigned ms)
+    {
+        struct itimerval it {};
+        it.it_value.tv_sec = ms / 1000;
+        it.it_value.tv_usec = static_cast<long>(ms % 1000) * 1000;
+        setitimer(ITIMER_REAL, &it, nullptr);
+    }
+
     // runs f(); returns "ok" | "throw:<what>" | "trap:<msg>" | "unreachable[:<msg>]" | "ub:<sig>" | "timeout"
     template<class F>
     std::string guarded(F&& f, unsigned watchdog_ms = 0)
@@ -90,13 +99,13 @@ namespace vf {
         if (sigsetjmp(g_env, 1)) {
             g_armed = 0;
             if (watchdog_ms) {
-                ualarm(0, 0);
+                watchdog(0);
             }
             return std::string(g_msg);
         }
         g_armed = 1;
         if (watchdog_ms) {
-            ualarm(watchdog_ms * 1000U, 0);
+            watchdog(watchdog_ms);
         }
         try {
             f();
@@ -108,7 +117,7 @@ namespace vf {
             out = "throw_other:?";
         }
         if (watchdog_ms) {
-            ualarm(0, 0);
+            watchdog(0);
         }
         g_armed = 0;
         return out;
